@@ -1,15 +1,23 @@
 import Netconan.Model.Words
 import Netconan.Proofs.RegexFrame
+import Netconan.Proofs.WordsNoSurvival
 /-!
 # C10 – Listed sensitive words never survive; reserved words always do  (tier T0)
 
 Proved here, for every word list, salt, reserved set and line: tokens that are conflicting
 reserved words are returned unchanged; the pseudonym is a function of salt and matched text, has
 at most `wordLen` characters and consists of hexadecimal digits only; one output token per input
-token, leading/trailing white space kept.  The no-survival statement itself (leftmost scanning
-leaves no match start in kept text; a hex pseudonym cannot begin, end or contain a listed word
-under the property's hypotheses on the list) needs the scanner lemmas of the regex engine (T1) and
-is validated on every run by a case-insensitive search of the implementation's output.
+token, leading/trailing white space kept.
+
+**The no-survival statement itself is proved** (`no_listed_word_survives_in_token`,
+`no_listed_word_survives_in_line`): leftmost scanning with a complete alternation leaves no match
+start in kept text (`Proofs/WordMatch.lean`), and a six-digit hex pseudonym can neither begin, end
+nor contain a listed word under the hypotheses on the list (`Proofs/NoSurvival.lean`): the word is
+non-empty, its first and last characters match no hex digit under IGNORECASE, it has no run of six
+characters that all match hex digits, and none of its characters matches white space.  The
+hypotheses are what the proof forces: a word such as `ab` can reappear inside a pseudonym by chance.
+"Occurs in any letter case" is read as the pattern reads it: character by character through the
+IGNORECASE character sets (`WEnv.icase`, supplied by CPython and compared on every run).
 -/
 namespace Netconan.Props.C10
 open Netconan Netconan.Words Netconan.Regex
@@ -101,5 +109,51 @@ theorem pseudonym_alphabet (salt matched : List Char) :
   · simp [replacement, List.length_take]; omega
 
 theorem wordLen_is_six : Generated.wordLen = 6 := by decide
+
+open NoSurvival in
+/-- **No listed word survives in a token** that is not itself a conflicting reserved word: after
+`_anonymize_sensitive_words`' substitution no listed word (satisfying `WordOK`) matches the output
+token at any offset, in any letter case – for every word list, salt, reserved list and token, whenever
+the model's substitution ends (it always does within its fuel; out-of-fuel is reported by the
+correspondence). -/
+theorem no_listed_word_survives_in_token (e : WEnv) (sens : List (List Char)) (salt : List Char) (res : List (List Char))
+    (hW : (mk e sens salt res).words ≠ []) (hne : ∀ w ∈ (mk e sens salt res).words, w ≠ [])
+    (tok out : List Char) (hnc : (mk e sens salt res).conflicting.contains (lowerStr e tok) = false)
+    (h : anonToken e (mk e sens salt res) tok = .ok out) :
+    ∀ w ∈ (mk e sens salt res).words, WordOK Generated.wordLen (setsOf e w) → ∀ k, pre (setsOf e w) (out.drop k) = false :=
+  token_no_survivor e sens salt res hW hne tok out hnc h
+
+open NoSurvival in
+/-- **No listed word survives in a line**, except inside tokens that are exactly a conflicting reserved
+word: the output is `leading ++ tokens joined by single spaces ++ trailing`; every output token either
+is such a reserved token, kept as written, or contains no occurrence of the word; and when the line
+has no such token the whole output line contains no occurrence.  (`out = line` is the case in which the
+pattern matches nowhere in the line: then the line has no occurrence to begin with.) -/
+theorem no_listed_word_survives_in_line (e : WEnv) (sens : List (List Char)) (salt : List Char) (res : List (List Char))
+    (hW : (mk e sens salt res).words ≠ []) (hne : ∀ w ∈ (mk e sens salt res).words, w ≠ [])
+    (line out : List Char) (h : anonymize e (mk e sens salt res) line = .ok out)
+    (w : List Char) (hw : w ∈ (mk e sens salt res).words) (hok : WordOK Generated.wordLen (setsOf e w))
+    (hsp : ∀ c, e.isSpace c = true → Unmatchable (setsOf e w) c) (hblank : e.isSpace ' ' = true) :
+    (out = line ∧ NoOcc (setsOf e w) out) ∨
+    ∃ outs : List (List Char),
+      out = (Secrets.splitLine e.isSpace line).1 ++ Secrets.joinSp outs ++ (Secrets.splitLine e.isSpace line).2.2 ∧
+      All2 (fun tok o =>
+          (o = tok ∧ (mk e sens salt res).conflicting.contains (lowerStr e tok) = true) ∨ NoOcc (setsOf e w) o)
+        (Secrets.splitLine e.isSpace line).2.1 outs ∧
+      ((∀ tok ∈ (Secrets.splitLine e.isSpace line).2.1, (mk e sens salt res).conflicting.contains (lowerStr e tok) = false) →
+        NoOcc (setsOf e w) out) :=
+  line_no_survivor e sens salt res hW hne line out h w hw hok hsp hblank
+
+/-! non-vacuity: an ASCII environment and the word `secret` meet the hypotheses -/
+def asciiEnv : WEnv where
+  lower c := [c.toLower]
+  icase c := if c.isAlpha then [(c.toLower.toNat, c.toLower.toNat), (c.toUpper.toNat, c.toUpper.toNat)] else [(c.toNat, c.toNat)]
+  isSpace c := c == ' ' || c == '\t'
+
+open NoSurvival in
+example : WordOK Generated.wordLen (setsOf asciiEnv ['s', 'e', 'c', 'r', 'e', 't']) := wordOK_of_b _ _ (by decide +kernel)
+open NoSurvival in
+/-- …and a word made of hex letters does not (`deadbeef`: the hypotheses are not vacuous either way) -/
+example : wordOKb Generated.wordLen (setsOf asciiEnv ['d', 'e', 'a', 'd', 'b', 'e', 'e', 'f']) = false := by decide +kernel
 
 end Netconan.Props.C10
